@@ -397,7 +397,8 @@ class BehavioralRTLIRTypeCheckVisitorL1( bir.BehavioralRTLIRNodeVisitor ):
           node._is_explicit = True
         else:
           node._value = int( obj[ int( idx ) ] )
-          node._is_explicit = False if isinstance(node._value, int) else True
+          # Only a python int element may be re-sized; a BitsN element is explicitly sized
+          node._is_explicit = not isinstance( obj[ int( idx ) ], int )
       else:
         node._is_explicit = True
 
